@@ -599,6 +599,10 @@ class Scheduler:
             for dependency in job.dependencies:
                 dependency.target = job
                 dependency.loop = self.loop
+                # Every dependency counts as unsatisfied above: a dependency
+                # object used again (e.g. for a job submitted again after a
+                # failure) must not keep the status it had for its former target
+                dependency.currentstatus = DependencyStatus.WAIT
                 dependency.origin.dependents.add(dependency)
                 dependency.check()
         else:
